@@ -40,4 +40,8 @@ def jobs(tier):
         km('kmedoids,N=%d,k=%d,proposals' % (N, k), N=N, k=k, entry='kmedoids', warm='all', proposals=True, sweeps=1)
         if k >= 2 and N == 3:
             km('kmedoids,N=%d,k=%d,warm=all,(trajectory, frame) center indices' % (N, k), N=N, k=k, entry='kmedoids', warm='all-pairs', sweeps=1)
+    # cold start with random ARRAY draws that may contain repeated frames (the library must redraw / reject them): one and two
+    # colliding draws, then the duplicate-free cut
+    for N, k, cd in ((3, 2, 1), (3, 2, 2), (3, 3, 1)) + (() if q else ((4, 2, 2), (4, 3, 2))):
+        km('kmedoids,N=%d,k=%d,cold start,%d colliding draw(s)' % (N, k, cd), N=N, k=k, entry='kmedoids', sweeps=1, colliding_draws=cd)
     return J
